@@ -31,13 +31,16 @@ type c11Case struct {
 	N      int    `json:"n"`
 	Subset string `json:"subset"` // one character per transaction: '1' chosen, '0' not
 	// Twins: the block contains two transactions (positions 3 and N-2) whose identifiers agree in their
-	// first four bytes ("head4"), their last four bytes ("tail4"), or the first two and last two
-	// ("ends2") - found by varying a lock time.  Anything that files hashes under part of their
+	// first four bytes ("head4"), their last four bytes ("tail4"), the first two and last two
+	// ("ends2") - found by varying a lock time - or their first / last six bytes ("head6", "tail6").  Anything that files hashes under part of their
 	// bytes (an index for large requested sets, a map keyed by a prefix) confuses exactly these.
 	Twins string `json:"txid_twins,omitempty"`
 }
 
 var c11TwinBlocks sync.Map
+
+// lock-time pairs whose transactions' identifiers agree in their first / last SIX bytes
+var c11TwinFixtures = map[string][2]uint32{"head6": {5988132, 6781120}, "tail6": {8103948, 41879600}}
 
 func c11TwinBlock(n int, kind string) *c11Block {
 	key := fmt.Sprintf("%s/%d", kind, n)
@@ -66,7 +69,15 @@ func c11TwinBlock(n int, kind string) *c11Block {
 		tx.LockTime = lt
 		return tx
 	}
-	for lt := uint32(1); lt < 3000000; lt++ {
+	if fx, ok := c11TwinFixtures[kind]; ok {
+		// six agreeing bytes take 2^24 identifiers to find: found once by tools/txidtwins, re-verified here
+		a, b := mk(fx[0]).TxHash(), mk(fx[1]).TxHash()
+		if a == b || (kind == "head6" && !bytes.Equal(a[:6], b[:6])) || (kind == "tail6" && !bytes.Equal(a[26:], b[26:])) {
+			panic("c11: the hard-wired txid twins of kind " + kind + " are not twins")
+		}
+		lt1, lt2 = fx[0], fx[1]
+	}
+	for lt := uint32(1); lt2 == 0 && lt < 3000000; lt++ {
 		p := part(mk(lt).TxHash())
 		if o, ok := seen[p]; ok {
 			lt1, lt2 = o, lt
@@ -454,7 +465,7 @@ func runC11(c *mc.Ctx) {
 	}
 	// blocks with txid twins (see c11Case.Twins), 20 and 40 transactions: everything requested, the twins
 	// with fourteen / thirty others, the twins alone, one twin, everything but one twin
-	for _, kind := range []string{"head4", "tail4", "ends2"} {
+	for _, kind := range []string{"head4", "tail4", "ends2", "head6", "tail6"} {
 		for _, n := range []int{20, 40} {
 			sub := func(f func(i int) bool) string {
 				b := make([]byte, n)
